@@ -1,0 +1,13 @@
+//! Read-only observation hook (feature `verif-hooks`).
+use super::*;
+use alloc::vec::Vec;
+
+impl<T> PacketIdManager<T>
+where
+    T: IsPacketId,
+{
+    /// Free packet id intervals `(low, high)`.
+    pub fn verif_intervals(&self) -> Vec<(T, T)> {
+        self.allocator.verif_intervals()
+    }
+}
